@@ -536,6 +536,24 @@ def _run(chk, tier, replay, binary, fdir, extra_paths):
             if r1.get("g%dr0" % gi):
                 refs[gi] = events_of_run("g%d" % gi, "g%dr0" % gi, ops, r1["g%dr0" % gi], ref_cfg)
 
+    # content that looks like a file trailer: ... 00 | <small little-endian length> | "PAR1" inside the column data, so that
+    # one proper prefix ends in a footer length and the magic, with a "footer" that is an empty Thrift struct (and a second
+    # table where the bytes before it are not even a STOP byte). Such a prefix is not a complete Parquet file.
+    if not replay:
+        par1 = [0x50, 0x41, 0x52, 0x31]
+        look = [[{"op": "Create", "cols": [{"name": [118], "type": 1, "rep": 0, "tlen": 0}]},
+                 {"op": "WriteBatch", "c": 0, "n": 5, "withDefs": False, "defs": [0] * 5,
+                  "vals": [[0, 0, 0, 0], [1, 0, 0, 0], par1, [2, 0, 0, 0], par1]}, {"op": "Close"}],
+                [{"op": "Create", "cols": [{"name": [115], "type": 6, "rep": 0, "tlen": 0}]},
+                 {"op": "WriteBatch", "c": 0, "n": 3, "withDefs": False, "defs": [0] * 3, "vals": [[], par1, [0, 4, 0, 0, 0] + par1]},
+                 {"op": "Close"}]]
+        for ops in look:
+            gi = len(groups)
+            groups.append((ops, 0, 1 << 20, True, False))
+            r1, _, _ = execute(binary, [run_line("g%dr0" % gi, ops, 0, 1 << 20, ref_cfg)], fdir, np=1)
+            if r1.get("g%dr0" % gi):
+                refs[gi] = events_of_run("g%d" % gi, "g%dr0" % gi, ops, r1["g%dr0" % gi], ref_cfg)
+
     t0 = tick(t0, "reference runs")
     # ---- phase 2: prefix sweeps and fault / abort runs
     lines, plan = [], {}
@@ -568,7 +586,7 @@ def _run(chk, tier, replay, binary, fdir, extra_paths):
         ops, codec, page, want_trunc, want_sink = g
         fb, nops = refs[gi][2], refs[gi][1]
         plan[gi] = {"pfx": [], "runs": []}
-        is_embedded = gi == len(groups) - 1 and not replay
+        is_embedded = gi >= len(groups) - 3 and not replay          # the embedded-file and trailer-lookalike tables
         if want_trunc and ncuts + len(fb) > cut_budget and not is_embedded:
             want_trunc = False
             skipped["trunc"] += 1
